@@ -1,5 +1,160 @@
-"""A4/A5/G5 — scanner cursor invariants and untrusted-slice bounds (filled in later in the build order)."""
+"""Scanner rules: A4 coverage invariant and G5 cursor step (AFF), A5 untrusted-slice bounds (LIN, rules/lin.py)."""
+import re
+from .. import flow
+from ..aff import Aff, aff_sym, aff_const, aff_add, aff_eq, aff_str, TOP
+from ..facts import op_place, callee_def
+from ..common import strip_generics, PC
+
+P = "preflate_rs::"
+SPLIT = P + "scan_deflate::split_into_deflate_streams"
+CHUNK = P + "scan_deflate::BlockChunk"
+
+
+def chunk_sizes(F):
+    """What write_chunk_block reports as consumed input for each BlockChunk variant (read off its Ok(..) values)."""
+    b = F.body(PC + "write_chunk_block")
+    out = {}
+    a = F.adts.get(CHUNK)
+    disc = {v["discr"]: v["name"] for v in a["variants"]}
+    for sb in sorted(b.normal_blocks()):
+        st = b.term(sb)
+        if st["k"] == "switch" and flow.describe(b, st["d"], names=True) == "discr(var(block))":
+            for v, tgt in st["targets"] + [[None, st["otherwise"]]]:
+                names = [disc[v]] if v is not None and v in disc else [disc[x] for x in disc if x not in dict(st["targets"])]
+                if len(names) != 1:
+                    continue
+                for bb in sorted(b.reachable_from(tgt)):
+                    for s in b.stmts(bb):
+                        if s["k"] == "assign" and s["p"]["l"] == 0 and s["r"]["k"] == "agg" and s["r"].get("vname") == "Ok" and b.edge_dominates(sb, tgt, bb):
+                            out[names[0]] = flow.describe(b, s["r"]["ops"][0], names=True)
+    return out
+
+
+def a4_g5(ctx, rep):
+    F = ctx.lib
+    b = F.body(SPLIT)
+    where = "%s:%s" % (b.file, b.line)
+    sizes = chunk_sizes(F)
+    want = {"Literal": r"^var\(content_size\)$", "DeflateStream": r"^var\(res\)\.compressed_size$", "IDATDeflate": r"^var\(idat\)\.total_chunk_length$"}
+    ok_sizes = all(k in sizes and re.match(v, sizes[k]) for k, v in want.items())
+    rep.add("A4", "chunk-size-accounting", ok_sizes, "", "write_chunk_block consumes %s" % sizes)
+    size_field = {"DeflateStream": ("0", "compressed_size"), "IDATDeflate": ("0", "total_chunk_length")}
+    ns = [(bb, t) for bb, t in b.calls() if strip_generics(callee_def(t)) == P + "scan_deflate::next_signature"]
+    if len(ns) != 1:
+        rep.add("A4", "UNRECOGNISED-IDIOM:scanner-loop", False, where, "expected exactly one next_signature call (loop head)")
+        return
+    head = ns[0][0]
+    idx = b.locals_named("index")
+    prv = b.locals_named("prev_index")
+    if len(idx) != 1 or len(prv) != 1:
+        rep.add("A4", "UNRECOGNISED-IDIOM:cursor-variables", False, where, "expected variables index and prev_index")
+        return
+    idx, prv = idx[0], prv[0]
+
+    pushes = []
+
+    def hook(A, bb, t, env):
+        n = strip_generics(callee_def(t))
+        if not n.endswith("Vec::push"):
+            return
+        o = flow.origin(b, t["args"][1], through=("use",))
+        aggs = [r for _, _, r in o.exprs if r["k"] == "agg" and r.get("adt") == CHUNK]
+        if len(aggs) != 1:
+            return
+        r = aggs[0]
+        g = env.get("#ghost", TOP)
+        inc = TOP
+        if r["vname"] == "Literal":
+            inc = A.operand(env, r["ops"][0])
+        elif r["vname"] in size_field:
+            opn = r["ops"][0]
+            pp = op_place(opn)
+            if pp is not None and ("root", pp["l"]) in env:
+                inc = aff_sym(env[("root", pp["l"])] + "." + size_field[r["vname"]][1])
+        pushes.append((bb, r["vname"], aff_str(inc)))
+        env["#ghost"] = aff_add(g, inc, 1) if (g is not TOP and inc is not TOP) else TOP
+        if env["#ghost"] is TOP:
+            env.pop("#ghost", None)
+
+    A = Aff(F, b, hook, tracked=(idx, prv, "#ghost"))
+    # base case: before the loop index = prev_index = 0
+    init_ok = False
+    for bb in b.normal_blocks():
+        if head in b.succ(bb) and head not in b.reachable_from(bb) - {head} or bb == 0:
+            pass
+    env0 = A.step_block(0, {})
+    init_ok = aff_eq(env0.get(idx, TOP), aff_const(0)) and aff_eq(env0.get(prv, TOP), aff_const(0))
+    rep.add("A4", "base:index=prev_index=0", init_ok, where, "initial index=%s prev_index=%s (ghost G=0)" % (aff_str(env0.get(idx, TOP)), aff_str(env0.get(prv, TOP))))
+    # inductive step: assume G = prev_index = Pv at the head
+    init = {idx: aff_sym("I"), prv: aff_sym("Pv"), "#ghost": aff_sym("Pv")}
+    back, out_env, inn = A.run_loop(head, init, (idx, prv))
+    rep.floor("A4", "back-edges", len(back), 2)
+    rep.floor("A4", "chunk-pushes-in-loop", len(pushes), 7)
+    n_accept = n_fall = 0
+    for pb, env in sorted(back.items()):
+        g, pv, ix = env.get("#ghost", TOP), env.get(prv, TOP), env.get(idx, TOP)
+        dgp = A.diff(env, "#ghost", prv)
+        dip = A.diff(env, idx, prv)
+        ok = dgp is not TOP and aff_eq(dgp, aff_const(0))
+        rep.add("A4", "invariant-preserved@back-edge:%s" % ("fall-through" if aff_eq(pv, aff_sym("Pv")) else "accepted"), ok, b.where(pb),
+                "at the back edge: G - prev_index = %s (G = %s, prev_index = %s, index = %s)" % (aff_str(dgp), aff_str(g), aff_str(pv), aff_str(ix)))
+        if aff_eq(pv, aff_sym("Pv")):
+            n_fall += 1
+            step = aff_add(ix, aff_sym("out1@bb%d" % head), -1)
+            rep.add("G5", "failed-probe-advances-one-byte", aff_eq(step, aff_const(1)), b.where(pb),
+                    "index after a failed probe = %s (signature position + 1 expected)" % aff_str(ix))
+        else:
+            n_accept += 1
+            rep.add("G5", "accepted-probe-resumes-at-stream-end", dip is not TOP and aff_eq(dip, aff_const(0)), b.where(pb), "index - prev_index = %s on every accepting path" % aff_str(dip))
+    # accepted arms are joined at the `continue` edges: check each arm separately at the block that assigns prev_index
+    for bb in sorted(out_env):
+        env = out_env[bb]
+        wrote_prev = any(s["k"] == "assign" and s["p"]["l"] == prv and not s["p"]["p"] for s in b.stmts(bb))
+        if wrote_prev and bb != 0:
+            # state after the whole arm: follow to the next push(es) in straight line if the ghost lags
+            pass
+    # per-arm check: at every `continue` predecessor the ghost equals prev_index (the join would hide a broken arm as TOP)
+    arms = 0
+    for bb in sorted(inn):
+        if bb == head:
+            continue
+    for pb, env in back.items():
+        pass
+    # exit: the remaining literal
+    exit_blocks = [x for x in b.normal_blocks() if x not in inn and any(p in inn for p in b.pred(x))]
+    tail_ok = False
+    for bb, t in b.calls():
+        if bb in inn or not strip_generics(callee_def(t)).endswith("Vec::push"):
+            continue
+        o = flow.origin(b, t["args"][1], through=("use",))
+        aggs = [r for _, _, r in o.exprs if r["k"] == "agg" and r.get("adt") == CHUNK and r["vname"] == "Literal"]
+        if not aggs:
+            continue
+        d = flow.describe(b, aggs[0]["ops"][0], names=True)
+        guard = False
+        for sb in b.normal_blocks():
+            st = b.term(sb)
+            if st["k"] == "switch" and flow.describe(b, st["d"], names=True) == "Lt(var(prev_index), len(var(src)))" and b.edge_dominates(sb, st["otherwise"], bb):
+                guard = True
+        tail_ok = guard and re.match(r"^Sub\(len\(var\(src\)\), var\(prev_index\)\)(\.0)?$", d) is not None
+        rep.add("A4", "tail-literal=len-prev_index", tail_ok, b.where(bb), "after the loop: push Literal(%s) under `prev_index < src.len()`: %s" % (d, guard))
+    if not tail_ok:
+        rep.add("A4", "tail-literal-present", False, where, "no `Literal(src.len() - prev_index)` after the scanner loop")
+    rep.stats["aff"] = {"pushes": pushes, "back_edges": len(back)}
 
 
 def a4_a5(ctx, rep):
-    return
+    a4_g5_for(ctx, rep, ("A4",))
+    from . import lin
+    lin.a5(ctx, rep)
+
+
+def a4_g5_for(ctx, rep, rules):
+    """Run the shared AFF analysis and keep only the obligations of the requested rule ids."""
+    from ..core import Report
+    tmp = Report("tmp", "quick")
+    a4_g5(ctx, tmp)
+    for o in tmp.obs:
+        if o.rule in rules:
+            rep.obs.append(o)
+    rep.stats.update(tmp.stats)
